@@ -231,12 +231,20 @@ func runC11(c *Ctx) {
 		c.Analysed(fnName(Next))
 		var sel *ssa.Select
 		nSel := 0
-		instrs(Next, func(in ssa.Instruction) {
-			if s, ok := in.(*ssa.Select); ok {
-				sel = s
-				nSel++
+		waitFns := []*ssa.Function{Next}
+		for _, ci := range callsIn(Next) {
+			if g := staticCallee(ci.Common()); g != nil && g.Pkg == Next.Pkg && !isExportedFn(g) && len(g.Blocks) > 0 && g != P.Method("coalesce", "Queue", "next") {
+				waitFns = append(waitFns, g)
 			}
-		})
+		}
+		for _, wf := range waitFns {
+			instrs(wf, func(in ssa.Instruction) {
+				if s, ok := in.(*ssa.Select); ok {
+					sel = s
+					nSel++
+				}
+			})
+		}
 		if nSel != 1 {
 			c.Bad("C11.wait-set", fnName(Next), "exactly one select in Next", P.Pos(Next.Pos()), fmt.Sprintf("found %d", nSel))
 		} else {
@@ -368,7 +376,12 @@ func runC11(c *Ctx) {
 						inc := false
 						if isB && b.Op == token.ADD {
 							if k, isK := constInt(b.Y); isK && k == 1 {
-								if lk, isL := b.X.(*ssa.Lookup); isL && loadOfField(lk.X, fCoal) {
+								// coalesced[i] + 1, the lookup spelled with or without comma-ok
+								x := b.X
+								if ex, isEx := x.(*ssa.Extract); isEx && ex.Index == 0 {
+									x = ex.Tuple
+								}
+								if lk, isL := x.(*ssa.Lookup); isL && loadOfField(lk.X, fCoal) && sameValue(lk.Index, ev.Args[1].V) {
 									inc = true
 								}
 							}
@@ -641,4 +654,19 @@ func keys(m map[string]bool) []string {
 	}
 	sortStrings(out)
 	return out
+}
+
+// sameValue: two operands denote the same value (identical, or both loads of the same parameter cell,
+// or one the interface conversion of the other).
+func sameValue(a, b ssa.Value) bool {
+	a, b = unwrap(a), unwrap(b)
+	if a == b {
+		return true
+	}
+	if ua, ok := a.(*ssa.UnOp); ok {
+		if ub, ok := b.(*ssa.UnOp); ok {
+			return ua.X == ub.X
+		}
+	}
+	return false
 }
